@@ -1,0 +1,15 @@
+//go:build verif
+
+// Contracts for package resource (quantity constructors). Compiled only with -tags verif;
+// nothing but //@ specification comments. Read by /verif/engine (govc).
+
+package resource
+
+// bytes as a binary quantity: its value is the byte count (milli-value 1000 times that)
+//@ func NewMemoryQuantity(value) (q)
+//@   ensures q != nil && fresh(q) && qval(deref(q)) == value && milli(deref(q)) == 1000 * value
+// millicores as a decimal quantity: its milli-value is the millicore count
+//@ func NewCPUQuantity(value) (q)
+//@   ensures q != nil && fresh(q) && milli(deref(q)) == value
+//@ func NewPodQuantity(value) (q)
+//@   ensures q != nil && fresh(q) && qval(deref(q)) == value && milli(deref(q)) == 1000 * value
